@@ -710,3 +710,145 @@ def own_sites(ctx, g, ev):
             if g.is_term(pt) and g.node(pt)["t"] == "call" and any(norm(c) in cl or c in cl for c in closure_args(g, g.node(pt))):
                 out.add(pt)
     return out
+
+
+# ---------------------------------------------------------------------------------------------------------------------------
+# round-3 seeds
+def check_cancel_consumes(ctx):
+    """(seeds C01-6, C02-5, C09-5: three agents, same slip) check_cancel consumes the injected Canceled result whenever the cancel bit is
+    set - also when it must not panic because the coroutine is already unwinding; a result left in the generator survives stack reuse"""
+    CK = "may::cancel::CancelImpl::check_cancel"
+    ctx.must_follow(CK, None, Call(r"may::yield_now::get_co_para", transitive=False), "check-cancel-always-consumes",
+                    "check_cancel consumes the injected Canceled result whenever the cancel bit is set, also when it must not panic (already unwinding)",
+                    edge=lambda a: a.kind == "cmp" and a.op == "Eq" and is_call_result(A("load"))(a.a) and is_const(1)(a.b), edge_label="edge `state.load() == 1`")
+
+def mpsc_fast_bulk_contiguous(ctx):
+    """(seed C01-5) mpsc fast_bulk_pop takes a CONTIGUOUS prefix of ready slots: it stops at the first slot whose producer has reserved
+    but not yet written it. Skipping such a slot (filter instead of take-while) commits an index past an unread slot: that element is
+    lost and a later one is handed out twice."""
+    FB = "may_queue::mpsc::Queue::fast_bulk_pop"; inst = "mpsc/fast-bulk-stops-at-first-gap"
+    f = ctx.fn("R-EXIT", FB, inst)
+    if f is None: return
+    TG = Call(r"may_queue::mpsc::BlockNode::try_get", transitive=False)
+    direct = ctx.an.sites(f, TG, "must")
+    if direct:
+        es = ctx.edges(f, variant_of_call(r"may_queue::mpsc::BlockNode::try_get", "None"))
+        if not es:
+            ctx.missing("R-EXIT", FB, inst, "no edge `try_get()` is None"); return
+        r = ctx.an.reach(f, [Point(tb, 0) for _, tb, _ in es])
+        bad = [d for d in direct if d in r]
+        ctx.ob("R-EXIT", FB, inst, not bad, "after the first not-ready slot fast_bulk_pop reads no further slot (contiguous prefix)" if not bad else
+               "fast_bulk_pop goes on reading slots after a not-ready one: the committed index passes an unread slot (lost element, duplicate delivery)", f.where((bad or sorted(direct))[0]))
+        return
+    # the scan is an iterator chain: the adapter that runs try_get must be one that stops at the first None
+    ok = None; site = None
+    for pt in f.points():
+        if not f.is_term(pt) or f.node(pt)["t"] != "call": continue
+        cl = [ctx.prog.fns.get(c) for c in closure_args(f, f.node(pt))]
+        if any(c is not None and ctx.an.sites(c, TG, "must") for c in cl):
+            site = pt
+            nm = (callee_name(f.node(pt)) or "").rsplit("::", 1)[-1]
+            ok = nm in ("map_while", "take_while", "scan")
+    if ok is None:
+        ctx.missing("R-EXIT", FB, inst, "no try_get scan found in fast_bulk_pop"); return
+    ctx.ob("R-EXIT", FB, inst, ok, "the slot scan stops at the first not-ready slot (map_while / take_while)" if ok else
+           "fast_bulk_pop scans the slots with an adapter that skips not-ready slots instead of stopping at the first one: the committed index passes an unread slot "
+           "(lost element, duplicate delivery)", f.where(site))
+
+def _resolve_upvar_origin(f, o, depth=0):
+    """origin with a leading closure-upvar projection replaced by what the parent function captured there"""
+    o = simplify(o)
+    ch, root = field_chain(o)
+    if depth < 3 and ch and ch[0][0].startswith("closure:") and root[0] == "arg" and root[1] == 1 and "::{closure" in f.id:
+        parent = f.prog.fns.get(f.id.rsplit("::{closure", 1)[0])
+        try: idx = int(ch[0][1])
+        except ValueError: idx = None
+        if parent is not None and idx is not None:
+            cid = norm(ch[0][0][len("closure:"):])
+            for b in parent.blocks:
+                if b.get("ghost"): continue
+                for st in b["st"]:
+                    if st.get("s") == "=" and st["rv"]["r"] == "agg" and st["rv"].get("ak") == "closure" and norm(st["rv"]["did"]) == cid and idx < len(st["rv"]["ops"]):
+                        return parent, _resolve_upvar_origin(parent, trace_operand(parent, st["rv"]["ops"][idx]), depth + 1)[1]
+    return f, o
+
+def is_own_blocker_arg(g, t, argi):
+    """argument argi of the call is the caller's own blocker (`SyncBlocker::current()`), possibly captured by a closure"""
+    if len(t["args"]) <= argi: return False
+    h, o = _resolve_upvar_origin(g, trace_operand(g, t["args"][argi]))
+    for _ in range(6):
+        while o[0] in ("ref", "deref", "clone", "field", "downcast", "index", "cast"): o = simplify(o[1])
+        if o[0] == "call" and re.search(r"::(deref|as_ref|borrow|clone)$", o[2] or "") and h.term(o[1])["args"]:
+            o = simplify(trace_operand(h, h.term(o[1])["args"][0])); continue
+        break
+    alts = o[2] if o[0] == "phi" else [o]
+    return any(x[0] == "call" and (x[2] or "").endswith("SyncBlocker::current") for x in alts)
+
+def wakes_dequeued_waiter(ctx, type_path, helper="unpark_one", rule="R-SIB"):
+    """(seed C05-6) the blocker handed to the wake-up helper is the one that was dequeued, never the caller's own: waking oneself
+    while discarding the popped waiter strands that waiter (its blocker is gone from the queue, nobody will unpark it)"""
+    n = 0
+    for k, g in sorted(ctx.prog.fns.items()):
+        if not k.startswith(type_path + "::"): continue
+        for pt in sorted(ctx.an.sites(g, Call(re.escape(type_path) + "::" + helper, transitive=False), "must")):
+            n += 1
+            bad = is_own_blocker_arg(g, g.node(pt), 1)
+            ctx.ob(rule, k, "wakes-the-dequeued-waiter", not bad, "%s hands the dequeued blocker to %s" % (k, helper) if not bad else
+                   "%s pops a waiter but hands its OWN blocker to %s: the popped waiter is dropped from the queue without being woken (stranded), the caller wakes itself" % (k, helper),
+                   g.where(pt))
+    if not n:
+        ctx.missing(rule, type_path + "::" + helper, "wakes-the-dequeued-waiter", "no call of %s::%s found" % (type_path, helper))
+
+def no_panicking_instant_arithmetic(ctx, rule="R-NUM"):
+    """(seed C10-6; same family as F17) `Instant + Duration` panics on overflow. A timeout like Duration::MAX ("no timeout") given to a
+    timed wait must saturate / be checked, not panic in the middle of the wait protocol (the waiter is already registered and counted)."""
+    bad = []; n = 0
+    for k, f in ctx.prog.fns.items():
+        if not k.lstrip("<&'a ").startswith("may"): continue
+        for pt in f.points():
+            if not f.is_term(pt) or f.node(pt)["t"] != "call": continue
+            nm = callee_name(f.node(pt)) or ""
+            if re.search(r"(Instant|SystemTime)::checked_(add|sub)$|Duration::(checked|saturating)_(add|sub|mul)$", nm): n += 1
+            if re.search(r"<std::time::(Instant|SystemTime) as std::ops::(Add|Sub|AddAssign|SubAssign)(<[^>]*>)?>::", nm) and "Duration" in " ".join(callee_generic_args(f.node(pt)) + [f.locals[(a.get("m") or a.get("c") or {"l": 0})["l"]] for a in f.node(pt)["args"][1:2] if (a.get("m") or a.get("c"))]):
+                bad.append((f, pt, nm))
+    ctx.ob(rule, "std::time::Instant", "no-panicking-instant-arithmetic", not bad,
+           "no `Instant +/- Duration` with the panicking operators in may (deadlines use checked_add / saturating arithmetic; %d checked sites)" % n if not bad else
+           "%s computes a deadline with the panicking `Instant + Duration`: a huge timeout (Duration::MAX used as 'no timeout') panics inside the wait, after the waiter "
+           "registered itself - its permit / notification is handed to a dead waiter" % bad[0][0].id, bad[0][0].where(bad[0][1]) if bad else None)
+
+
+def injected_kinds(ctx, rule="R-ENUM"):
+    """(seed C02-6) park_timeout / the io front-ends decode an injected result purely by its io::ErrorKind: TimedOut -> Timeout,
+    Other -> Canceled. Every resumer therefore injects the kind of what it stands for: the four timeout deliverers (timer-thread
+    handler, io timeout handler, the two deadline re-checks) TimedOut, cancel Other. A timeout delivered as `Other` is reported as
+    Canceled to a coroutine nobody cancelled (the sync primitives then kill it with a Cancel panic)."""
+    want = {"may::scheduler::init_scheduler": "TimedOut", "may::io::sys::timeout_handler": "TimedOut",
+            "<may::park::Park as may::coroutine_impl::EventSource>::subscribe": "TimedOut", "may::io::sys::EventData::store_co": "TimedOut",
+            "may::cancel::CancelImpl::cancel": "Other"}
+    n = 0
+    for k, f in sorted(ctx.prog.fns.items()):
+        base = k.split("::{closure")[0]
+        for pt in sorted(ctx.an.sites(f, Call(r"may::yield_now::set_co_para", transitive=False), "must")):
+            t = f.node(pt)
+            o = simplify(trace_operand(f, t["args"][1]))
+            kind = None
+            if o[0] == "call":
+                nm = o[2] or ""; ct = f.term(o[1])
+                if nm.endswith("io::Error::other"): kind = "Other"
+                elif nm.endswith("io::Error::new") and ct["args"]:
+                    ko = simplify(trace_operand(f, ct["args"][0]))
+                    if ko[0] == "agg" and "ErrorKind" in (ko[1] or ""): kind = ko[2]
+                    elif ko[0] == "const" and ko[1]: 
+                        m = re.search(r"ErrorKind::(\w+)", ko[1]); kind = m.group(1) if m else None
+                elif nm.endswith("io::Error::from") and ct["args"]:
+                    ko = simplify(trace_operand(f, ct["args"][0]))
+                    if ko[0] == "agg" and "ErrorKind" in (ko[1] or ""): kind = ko[2]
+            exp = want.get(base)
+            n += 1
+            if exp is None:
+                continue          # not a frozen injector: the who-may-call rule `result-injectors` reports it
+            ctx.ob(rule, base, "injected-kind", kind == exp, "%s injects io::ErrorKind::%s" % (base, exp) if kind == exp else
+                   "%s injects %s where the decoders expect %s: park_timeout / the io front-ends map the kind to Timeout (TimedOut) or Canceled (Other) - "
+                   "the woken coroutine is told the wrong reason" % (base, "ErrorKind::%s" % kind if kind else "an error of unknown kind", exp), f.where(pt))
+    if n < 4:
+        ctx.missing(rule, "may::yield_now::set_co_para", "injected-kind", "expected >= 4 result injection sites, found %d" % n)
